@@ -52,6 +52,29 @@ type Ending struct {
 type Session struct {
 	Steps []Step `json:"steps"`
 	End   Ending `json:"end"` // ignored for the last session
+	// Bcfg: broker configs that change with this session: the process is started
+	// with History.Bcfg overlaid by the Bcfg of every session up to this one
+	// ("" = back to kfake's default). E.g. a lower message.max.bytes than the
+	// one the stored batches were accepted under.
+	Bcfg map[string]string `json:"bcfg,omitempty"`
+}
+
+// sessionBcfg returns the broker configs session i is started with.
+func sessionBcfg(h History, i int) map[string]string {
+	var out map[string]string
+	put := func(m map[string]string) {
+		for k, v := range m {
+			if out == nil {
+				out = map[string]string{}
+			}
+			out[k] = v
+		}
+	}
+	put(h.Bcfg)
+	for j := 0; j <= i && j < len(h.Sessions); j++ {
+		put(h.Sessions[j].Bcfg)
+	}
+	return out
 }
 
 // History is a sequence of sessions on one directory.
@@ -332,6 +355,13 @@ func (r *runner) afterClean() {
 	for i := range m.Ends {
 		m.Ends[i].Ack, m.Ends[i].Sent = 0, 0
 	}
+	for _, h := range m.Cfgs {
+		for i := range h {
+			if h[i].Ack != never {
+				h[i].Ack, h[i].Sent = 0, 0
+			}
+		}
+	}
 }
 
 // carry classifies one request of a session that crashed before op k:
@@ -394,6 +424,19 @@ func (r *runner) afterCrash(k int) {
 		}
 	}
 	m.Ends = ends
+	for t, h := range m.Cfgs {
+		var out []cfgAck
+		for _, c := range h {
+			if carry(&c.Ack, &c.Sent, k) {
+				out = append(out, c)
+			}
+		}
+		if len(out) == 0 {
+			delete(m.Cfgs, t)
+		} else {
+			m.Cfgs[t] = out
+		}
+	}
 }
 
 // resync runs right after the restart that begins session r.sess: it learns
@@ -413,6 +456,44 @@ func (r *runner) resync(n *node, crashed bool) (*Snap, error) {
 	r.exists = map[string]int32{}
 	for _, t := range s.Topics {
 		r.exists[t.Name] = t.Parts
+	}
+	// Every produce the model still holds was acknowledged before the previous
+	// session ended (clean Close: all of them; crash: afterCrash kept those
+	// acknowledged before the crash point). The check of the previous session has
+	// seen them survive a restart with ITS broker configs; this process may have
+	// been started with different ones (Session.Bcfg), and they must be there
+	// just the same.
+	for _, a := range r.m.Produced {
+		key := tpKey(a.Topic, a.Part)
+		ps := s.Parts[key]
+		if ps == nil || ps.HWM < a.Base+int64(a.N) {
+			end := int64(-1)
+			if ps != nil {
+				end = ps.HWM
+			}
+			return nil, violf("acknowledged produce lost: session %d starts on the directory the previous session left (crashed=%v) with broker configs %v: %s ends at %d, but a produce of %d records (batch of %d bytes) at offset %d was acknowledged before (log end must be >= %d; explicitly set topic configuration now {%s})",
+				r.sess, crashed, r.bcfg, key, end, a.N, a.Size, a.Base, a.Base+int64(a.N), s.Cfgs[a.Topic])
+		}
+	}
+	if crashed {
+		// the crash oracle has just accepted what this directory shows as topic
+		// configuration (acknowledged changes are there, a change in flight at the
+		// crash may or may not be): from here on that IS the configuration, later
+		// sessions change it further
+		for _, t := range s.Topics {
+			delete(r.m.Cfgs, t.Name)
+			delete(r.m.CfgBase, t.Name)
+			if c := s.Cfgs[t.Name]; c != "" {
+				r.m.CfgBase[t.Name] = c
+			}
+			r.cfgNow[t.Name] = parseCfg(s.Cfgs[t.Name])
+		}
+	} else {
+		for _, t := range s.Topics {
+			if want := canonCfg(r.cfgNow[t.Name]); s.Cfgs[t.Name] != want {
+				return nil, violf("session %d (restart after a clean Close, broker configs %v): topic %q shows the explicitly set configuration {%s}, before the Close it was {%s}", r.sess, r.bcfg, t.Name, s.Cfgs[t.Name], want)
+			}
+		}
 	}
 	if crashed {
 		seen := map[int64]bool{}
@@ -604,8 +685,23 @@ func runHistoryOpt(t tb, h History, strict bool) *explorer {
 	for i, s := range h.Sessions {
 		last := i == len(h.Sessions)-1
 		r.sess = i
+		bcfg := sessionBcfg(h, i)
 		sdesc := fmt.Sprintf("%s\n  session %d [%s]", desc, i, stepsString(s.Steps))
-		n, err := startNode(fs, h.Bcfg)
+		if len(s.Bcfg) > 0 {
+			sdesc = fmt.Sprintf("%s\n  session %d (started with broker configs %v) [%s]", desc, i, bcfg, stepsString(s.Steps))
+			ev.Class("session_starts_with_changed_broker_configs")
+		}
+		if i > 0 {
+			was, now := maxBytesOf(nil, brokerMaxOf(sessionBcfg(h, i-1))), maxBytesOf(nil, brokerMaxOf(bcfg))
+			switch {
+			case now < was:
+				ev.Class("session_starts_with_lower_broker_message_max_bytes")
+			case now > was:
+				ev.Class("session_starts_with_higher_broker_message_max_bytes")
+			}
+		}
+		r.bcfg = bcfg
+		n, err := startNode(fs, bcfg)
 		if err != nil {
 			if isInfra(err) {
 				infra(t, err)
@@ -613,6 +709,10 @@ func runHistoryOpt(t tb, h History, strict bool) *explorer {
 			if i == 0 {
 				ev.Replay("c33-"+h.Name+"-start.txt", fmt.Sprintf("%s\n%v", sdesc, err))
 				t.Fatalf("C33 violated: starting the workload cluster on an empty directory: %v (history %s)", err, sdesc)
+			}
+			if len(s.Bcfg) > 0 {
+				// same directory, other broker configs than in the check of the previous session
+				historyFail(t, h, sdesc, violf("session %d: restart on the directory the previous session left fails with broker configs %v: %v", i, bcfg, err))
 			}
 			// the same state started once already in the check of the previous session
 			infra(t, fmt.Errorf("session %d: restart failed although the same directory state restarted before: %v", i, err))
@@ -633,7 +733,8 @@ func runHistoryOpt(t tb, h History, strict bool) *explorer {
 				}
 			}
 		}
-		r.m.Script = Script{Name: h.Name, Prods: h.Prods, Steps: s.Steps, Bcfg: h.Bcfg}
+		r.m.Script = Script{Name: h.Name, Prods: h.Prods, Steps: s.Steps, Bcfg: bcfg}
+		r.m.BrokerMax = brokerMaxOf(bcfg)
 		r.m.Sessions = i + 1
 		r.m.History = sdesc + " -> (this session: every crash point / clean Close)"
 		skippedBefore := r.skipped
@@ -842,6 +943,21 @@ func genHistory(t *rapid.T) History {
 		cur = append(cur, st)
 	}
 	h.Sessions = append(h.Sessions, Session{Steps: cur})
+	// broker-level message.max.bytes may change from one process to the next
+	for i := range h.Sessions {
+		var v string
+		switch c := rapid.IntRange(0, 5).Draw(t, "brokermax"); {
+		case (c == 1 || c == 2) && i > 0: // lower than anything a padded batch of an earlier session needed
+			v = fmt.Sprint(rapid.IntRange(256, 384).Draw(t, "brokermaxlow"))
+		case c == 3:
+			v = "4096"
+		case c == 4 && i > 0:
+			v = "" // back to the default
+		default:
+			continue
+		}
+		h.Sessions[i].Bcfg = map[string]string{"message.max.bytes": v}
+	}
 	for i := 0; i < len(h.Sessions)-1; i++ {
 		if rapid.Bool().Draw(t, "crash") {
 			h.Sessions[i].End = Ending{
